@@ -4,16 +4,27 @@ pub use methods::dispatch as sort;
 
 #[dispatch]
 mod methods {
-    use crate::CelValue;
+    use crate::{CelError, CelResult, CelValue};
 
-    fn sort(mut this: Vec<CelValue>) -> Vec<CelValue> {
+    fn sort(mut this: Vec<CelValue>) -> CelResult<Vec<CelValue>> {
+        // Elements that are all comparable with the first one are mutually
+        // comparable. Anything else (unrelated types, NaN) has no order, and
+        // sorting with an inconsistent comparison panics for longer lists.
+        if let Some(first) = this.first() {
+            for other in this.iter().skip(1) {
+                if first.clone().ord(other.clone())?.is_none() {
+                    return Err(CelError::value("sort() needs mutually comparable elements"));
+                }
+            }
+        }
+
         this.sort_by(|a, b| {
             a.clone()
                 .ord(b.clone())
                 .unwrap_or(Some(std::cmp::Ordering::Less))
                 .unwrap_or(std::cmp::Ordering::Less)
         });
-        this
+        Ok(this)
     }
 
     mod internal {}
